@@ -19,7 +19,7 @@ type reqInfo struct {
 	cmd   string
 	key   int
 	isCtx bool
-	done chan string // receives the response kind (closed without a value if the process ended)
+	done  chan string // receives the response kind (closed without a value if the process ended)
 }
 
 // client is the protocol client of one session: it owns the child process,
@@ -28,17 +28,17 @@ type client struct {
 	cmd    *exec.Cmd
 	stderr bytes.Buffer
 
-	mu       sync.Mutex // orders log entries; never held during blocking I/O
-	events   []event    // the trace for ServiceTrace.tla
-	plog     []string   // human-readable packet log (replay / diagnosis)
-	closed   bool       // close-stdin was logged
-	dead     bool       // stdout reached EOF
-	nextID   uint32
-	pending  map[uint32]*reqInfo
-	inflight int
-	maxIn    int
-	nreq     int
-	ncb      int
+	mu         sync.Mutex // orders log entries; never held during blocking I/O
+	events     []event    // the trace for ServiceTrace.tla
+	plog       []string   // human-readable packet log (replay / diagnosis)
+	closed     bool       // close-stdin was logged
+	dead       bool       // stdout reached EOF
+	nextID     uint32
+	pending    map[uint32]*reqInfo
+	inflight   int
+	maxIn      int
+	nreq       int
+	ncb        int
 	unanswered map[uint32]string // requests of the service not (yet) answered
 	lastCancel map[int]time.Time
 	cancelsOut map[int]int // cancels sent and not yet answered, per key
@@ -47,9 +47,9 @@ type client struct {
 	protoErr   string
 	t0         time.Time
 
-	outq     chan []byte // nil element = close stdin
-	outDone  chan struct{}
-	readDone chan struct{}
+	outq      chan []byte // nil element = close stdin
+	outDone   chan struct{}
+	readDone  chan struct{}
 	onRequest func(id uint32, cmd string, key int, v map[string]interface{}, arrived time.Time)
 }
 
